@@ -15,24 +15,35 @@ _ENVS: dict = {}
 PARTIALS = {"inc": "({{ z }}{{ x }})", "incw": "({{ w }})", "ren": "({{ w }}{{ z }})"}
 
 
-def env(ae: bool):
-    if ae not in _ENVS:
+def env(ae, reg: str = "plain"):
+    """reg: plain (built-in tags and filters), extra (Environment(extra=True): the translation filters get
+    autoescape_message = env.autoescape), hand (the five translation filters registered by hand with their defaults)."""
+    k = (ae, reg)
+    if k not in _ENVS:
         from liquid import DictLoader, Environment
 
-        _ENVS[ae] = Environment(autoescape=ae, loader=DictLoader(dict(PARTIALS)))
-    return _ENVS[ae]
+        e = Environment(autoescape=ae, loader=DictLoader(dict(PARTIALS)), extra=(reg == "extra"))
+        if reg == "hand":
+            from liquid.extra import TranslateTag
+            from liquid.extra.filters.translate import GetText, NGetText, NPGetText, PGetText, Translate
+
+            for f in (Translate(), GetText(), NGetText(), PGetText(), NPGetText()):
+                e.add_filter(f.name, f)
+            e.add_tag(TranslateTag)
+        _ENVS[k] = e
+    return _ENVS[k]
 
 
 _TPL: dict = {}
 
 
-def render(ae: bool, src: str, data: dict, use_async: bool = False):
+def render(ae: bool, src: str, data: dict, use_async: bool = False, reg: str = "plain"):
     try:
-        k = (ae, src)
+        k = (ae, reg, src)
         if k not in _TPL:
             if len(_TPL) > 60000:
                 _TPL.clear()
-            _TPL[k] = env(ae).from_string(src)
+            _TPL[k] = env(ae, reg).from_string(src)
         t = _TPL[k]
         return ("out", run_async(t.render_async(**data)) if use_async else t.render(**data))
     except Exception as e:  # noqa: BLE001
@@ -110,6 +121,10 @@ def filter_src(f) -> str:
         return "join" if f[1] is None else "join: " + atom_src(f[1])
     if n == "opaque":
         return f[1]
+    if n == "trans":
+        _, kind, _aem, args, kw = f
+        parts = [atom_src(a) for a in args] + [f"{k}: {atom_src(a)}" for k, a in kw]
+        return kind + (": " + ", ".join(parts) if parts else "")
     args = ", ".join(atom_src(a) for a in f[1:])
     return n + (": " + args if args else "")
 
@@ -149,6 +164,11 @@ def g_filter(f) -> str:
         return f"(FDefault {g_atom(f[1])})"
     if n == "opaque":
         return f"(FOpaque {OPAQUE[f[1]]} {g_str(f[2])})"
+    if n == "trans":
+        _, kind, aem, args, kw = f
+        gk = {"t": "TT", "gettext": "TGettext", "ngettext": "TNgettext", "pgettext": "TPgettext", "npgettext": "TNpgettext"}[kind]
+        return (f"(FTrans {gk} {'true' if aem else 'false'} {g_list(g_atom(a) for a in args)} "
+                + g_list(f"({g_str(k)}, {g_atom(a)})" for k, a in kw) + ")")
     raise ValueError(n)
 
 
@@ -202,6 +222,11 @@ def stmts_src(ss) -> str:
         elif k in ("include", "render"):
             binds = "".join(f", {n}: {atom_src(a)}" for n, a in s[2])
             out.append("{% " + k + " '" + s[1] + "'" + binds + " %}")
+        elif k == "translate":
+            _, binds, sing, plur = s
+            b = ", ".join(f"{n}: {atom_src(a)}" for n, a in binds)
+            seg = lambda m: "".join(t[1] if t[0] == "text" else "{{ " + t[1] + " }}" for t in m)  # noqa: E731
+            out.append("{% translate" + (" " + b if b else "") + " %}" + seg(sing) + ("{% plural %}" + seg(plur) if plur is not None else "") + "{% endtranslate %}")
         elif k == "liquid":
             lines = []
             for t in s[1]:
@@ -237,6 +262,11 @@ def g_stmts(ss) -> str:
         elif k in ("include", "render"):
             binds = g_list(f"({g_str(n)}, {g_atom(a)})" for n, a in s[2])
             out.append(("SInclude " if k == "include" else "SRender ") + binds + " " + g_stmts(PARTIAL_AST[s[1]]))
+        elif k == "translate":
+            _, binds, sing, plur = s
+            gseg = lambda m: g_list((f"MText {g_str(t[1])}" if t[0] == "text" else f"MVar {g_str(t[1])}") for t in m)  # noqa: E731
+            gb = g_list(f"({g_str(n)}, {g_atom(a)})" for n, a in binds)
+            out.append(f"STranslate {gb} {gseg(sing)} " + ("None" if plur is None else f"(Some {gseg(plur)})"))
         elif k == "liquid":
             for t in s[1]:
                 out.append(f"SOut {g_expr(t[1])}" if t[0] == "echo" else f"SAssign {g_str(t[1])} {g_expr(t[2])}")
@@ -250,6 +280,8 @@ def g_value(v) -> str:
 
     if isinstance(v, list):
         return "(VL " + g_list(g_sstr(x) for x in v) + ")"
+    if isinstance(v, int):
+        return f"(VInt {v})"
     return f"(VS {g_sstr(v)})"
 
 
@@ -324,6 +356,59 @@ def measure_opaque(name: str, x: str):
     """The text function of strip_html / url_decode / base64_decode on x, read off an autoescape-off render (public API)."""
     r = render(False, "{{ x | " + name + " }}", {"x": x})
     return r[1] if r[0] == "out" else None
+
+
+# ----------------------------------------------------------------------------------------------- translation filters and tag
+def trans(kind, aem, args=(), kw=()):
+    return ("trans", kind, aem, tuple(args), tuple(kw))
+
+
+def translation_cases(ck: Check, note, quick: bool) -> None:
+    """t / gettext / ngettext / pgettext / npgettext and the translate tag: messages with and without placeholders, variables
+    from hostile data, plural forms selected by count, registered by extra=True (autoescape_message = env.autoescape) and by
+    hand (autoescape_message = False), autoescape on and off."""
+    lefts = [LIT("Hello %(a)s"), LIT("plain"), LIT("%(x)s %(nosuch)s %%(a)s %(a) %(a)s%(b)s"), VAR("x")]
+    plurals = [LIT("many %(a)s %(count)s"), VAR("y")]
+    counts = [VAR("n"), LIT("2"), VAR("nosuch"), LIT("zz")] if not quick else [VAR("n"), LIT("2"), VAR("nosuch")]
+    kws = [(("a", VAR("x")),), (("a", VAR("y")), ("b", VAR("x"))), (("a", LIT("k")),), ()]
+    if quick:
+        kws = kws[:2] + kws[3:]
+    datas = [{"x": "<a&b>", "y": "'q\"&", "n": 2}, {"x": "&lt;%(y)s", "y": "<i>%(x)s", "n": 1}, {"x": "a'b", "y": "", "n": 0}]
+    if quick:
+        datas = datas[:2]
+    else:
+        for _ in range(3):
+            mk = lambda: "".join(ck.rng.choice(TOKENS + ["%(a)s", "%(y)s", "%", "%%"]) for _ in range(ck.rng.randrange(1, 5)))  # noqa: E731
+            datas.append({"x": mk(), "y": mk(), "n": ck.rng.randrange(0, 4)})
+    tails = [(), (("append", VAR("y")),), (("slice", 0, 4),)] if not quick else [(), (("append", VAR("y")),)]
+    for reg in ("extra", "hand"):
+        for ae in (True, False):
+            aem = ae if reg == "extra" else False
+            progs = []
+            for left in lefts:
+                for kw in kws:
+                    fs = [trans("t", aem, (), kw), trans("gettext", aem, (), kw), trans("pgettext", aem, (LIT("ctx"),), kw),
+                          trans("t", aem, (VAR("y"),), kw)]
+                    for pl in plurals:
+                        for c in counts:
+                            fs.append(trans("ngettext", aem, (pl, c), kw))
+                            fs.append(trans("npgettext", aem, (LIT("ctx"), pl, c), kw))
+                            fs.append(trans("t", aem, (), kw + (("plural", pl), ("count", c))))
+                    for f in fs:
+                        for tail in tails:
+                            progs.append(([("out", (left, (f,) + tail))], left, f))
+            for prog, left, f in progs:
+                # registered by hand the message texts are trusted: a message taken from data is printed as it is, by design
+                texts = [left] + [a for a in f[3][:2] if f[1] in ("ngettext", "npgettext")] + [a for k, a in f[4] if k == "plural"]
+                trusted_from_data = reg == "hand" and any(t[0] == "var" for t in texts if t != LIT("ctx"))
+                for d in datas:
+                    note(ae, prog, d, "none" if trusted_from_data else "scan", "trans-" + reg, reg=reg)
+            # the tag
+            for binds in ([("a", VAR("x")), ("count", VAR("n"))], [("a", VAR("y"))], [("count", LIT("2")), ("a", VAR("x"))], [("count", VAR("nosuch"))], []):
+                for plur in (None, [("text", "Many "), ("var", "a"), ("text", " "), ("var", "count"), ("var", "y"), ("text", " 100%")]):
+                    prog = [("translate", binds, [("text", "Hello "), ("var", "a"), ("text", " % %(a)s "), ("var", "x")], plur)]
+                    for d in datas:
+                        note(ae, prog, d, "scan", "translate-tag-" + reg, reg=reg)
 
 
 # ----------------------------------------------------------------------------------------------- wider space, oracle only
@@ -422,7 +507,10 @@ def run(ck: Check) -> None:
         "append/prepend/replace/remove with literal and data arguments, slice, split, join, first, last, default, size; strip_html/url_decode/"
         "base64_decode in first position) over 12 fixed and seeded random data strings from an alphabet of < > & ' \" ; # and entity fragments, "
         "in an output statement, autoescape on and off; every chain of <=1 filters in 12 further contexts (echo assign capture cycle for if case "
-        "include render liquid); Markup / __html__ data through every context; data without special characters with autoescape on vs off. "
+        "include render liquid); Markup / __html__ data through every context; data without special characters with autoescape on vs off; "
+        "the five translation filters (messages with and without %(name)s placeholders, literal and data messages and plurals, message variables "
+        "from hostile data and from the render context, count from data / literal / undefined / non-numeric, followed by a further filter) and the "
+        "translate tag (arguments, count, plural block), each under Environment(extra=True) and with the filters registered by hand, autoescape on and off. "
         "Each rendered text is compared inside Coq with the model; the oracle scans each autoescape-on output. Non-trivial = the data holds a "
         "special character or the chain is non-empty; distinct = distinct (autoescape, source, data)."
     )
@@ -438,7 +526,10 @@ def run(ck: Check) -> None:
         "template literals hold no HTML-special character; safe, newline_to_br, script_tag, stylesheet_tag, tablerow and other HTML-generating constructs are out of scope",
         "no string filter is applied to an array (str(list) is not modelled); separators are never a single space",
         "data alphabet: < > & ' \" ; # + % space, the letters a b l m p t and those the escape functions add (g o q u x), digits (so that html.unescape is the 68-entry table of Escape.v)",
-        "translate tag and t filter, block.super, ternaries: run against the oracle only where they occur; not in the model",
+        "translation: NullTranslations only (gettext returns the message, ngettext the singular iff n = 1, the message context selects nothing); "
+        "registered by hand (autoescape_message=False) the message texts are trusted, so the oracle scans only cases whose message texts are literals; "
+        "placeholder names are ASCII words; counts are ints, digit strings, undefined or non-numeric text",
+        "block.super, ternaries, macros: run against the oracle only where they occur; not in the model",
     ]
     ck.proof()
 
@@ -460,30 +551,30 @@ def _run(ck: Check, quick: bool) -> None:
     cases, expected, meta = [], [], []
     seen_sig: dict = {}
 
-    def note(ae, prog, data, what, label):
+    def note(ae, prog, data, what, label, reg="plain"):
         """Run one program; oracle; queue for the model."""
         src = stmts_src(prog)
-        r = render(ae, src, data)
-        ra = render(ae, src, data, use_async=True)
+        r = render(ae, src, data, reg=reg)
+        ra = render(ae, src, data, use_async=True, reg=reg)
         ck.note_case((ae, src, sorted((k, repr(v)) for k, v in data.items())), nontrivial=True)
         ck.count(f"{label}.{'on' if ae else 'off'}")
         ck.traces += 2
         if r != ra:
-            _viol(ck, seen_sig, "sync-async-differ:" + label, f"{src!r} with {data!r}: sync {r} async {ra}", ae, src, data, r)
+            _viol(ck, seen_sig, "sync-async-differ:" + label, f"{src!r} with {data!r}: sync {r} async {ra}", ae, src, data, r, reg=reg)
         if r[0] != "out":
             ck.count("engine-error." + r[1])
             return r
         if ae and what == "scan":
             raw, bad = scan(r[1])
             if raw:
-                _viol(ck, seen_sig, f"raw-special:{label}:{_chain_sig(prog)}", f"{src!r} with {data!r} renders {r[1]!r}: raw {raw}", ae, src, data, r)
+                _viol(ck, seen_sig, f"raw-special:{label}:{_chain_sig(prog)}", f"{src!r} with {data!r} ({reg}) renders {r[1]!r}: raw {raw}", ae, src, data, r, reg=reg)
             elif bad:
                 cut = _first_cut(prog)
                 sig = f"amp-not-entity:{cut}" if cut else f"amp-not-entity:unexpected:{label}:{_chain_sig(prog)}"
-                _viol(ck, seen_sig, sig, f"{src!r} with {data!r} renders {r[1]!r}: the & at {bad[:3]} starts no entity", ae, src, data, r)
+                _viol(ck, seen_sig, sig, f"{src!r} with {data!r} ({reg}) renders {r[1]!r}: the & at {bad[:3]} starts no entity", ae, src, data, r, reg=reg)
         cases.append(g_case(ae, data, prog))
         expected.append(f"Some {g_str(r[1])}")
-        meta.append((ae, src, data, r))
+        meta.append((ae, src, data, r, reg))
         return r
 
     # A. every chain in an output statement, autoescape on and off
@@ -511,7 +602,7 @@ def _run(ck: Check, quick: bool) -> None:
 
     # thorough: random chains of three
     if not quick:
-        for _ in range(12000):
+        for _ in range(8000):
             ch, kind = (), "S"
             while len(ch) < 3:
                 f = ck.rng.choice(pool)
@@ -585,6 +676,9 @@ def _run(ck: Check, quick: bool) -> None:
                 if on != off:
                     _viol(ck, seen_sig, "autoescape-changes-clean-output", f"{stmts_src(prog)!r} with {data!r}: on {on} off {off}", True, stmts_src(prog), data, on)
 
+    # T. translation filters and the translate tag, under both registrations
+    translation_cases(ck, note, quick)
+
     # E. the wider space (oracle only)
     wide(ck, seen_sig, 6 if quick else 60)
 
@@ -614,11 +708,11 @@ def _run(ck: Check, quick: bool) -> None:
             print("  MISMATCH", n, k, ex[k], file=sys.stderr)
     for u in umm[:4]:
         i = uniq[keys[u]][0]
-        ae, src, data, r = meta[i]
+        ae, src, data, r, reg = meta[i]
         model = ck.coq_eval(IMPORTS, [f"run_escape ({cases[i]})"])[0]
         ck.violation("correspondence", "c05-render-correspondence",
-                     f"model Escape.run_escape and the implementation disagree on {src!r} with {data!r} (autoescape {ae}): implementation {r[1]!r}, model {model}",
-                     {"type": "render", "autoescape": ae, "template": src, "data": _jsonable(data), "impl": r, "model": model,
+                     f"model Escape.run_escape and the implementation disagree on {src!r} with {data!r} (autoescape {ae}, registration {reg}): implementation {r[1]!r}, model {model}",
+                     {"type": "render", "autoescape": ae, "registration": reg, "template": src, "data": _jsonable(data), "impl": r, "model": model,
                       "broken": "correspondence Escape.exec ~ rendering (theorems C05_no_injection, C05_identity_without_specials)"}, no_input=True)
 
 
@@ -655,12 +749,12 @@ def _chain_sig(prog) -> str:
     return "|".join(_all_filters(prog))[:80]
 
 
-def _viol(ck, seen, sig, what, ae, src, data, r, kind="render"):
+def _viol(ck, seen, sig, what, ae, src, data, r, kind="render", reg="plain"):
     seen[sig] = seen.get(sig, 0) + 1
     ck.count("oracle." + sig.split(":")[0])
     if seen[sig] > 2:
         return
-    ck.violation("impl-violation", sig, what, {"type": kind, "autoescape": ae, "template": src, "data": _jsonable(data), "observed": r})
+    ck.violation("impl-violation", sig, what, {"type": kind, "autoescape": ae, "registration": reg, "template": src, "data": _jsonable(data), "observed": r})
 
 
 def replay(data) -> int:
@@ -679,7 +773,7 @@ def replay(data) -> int:
         except Exception as e:  # noqa: BLE001
             r = ("err", classify_exc(e))
     else:
-        r = render(case["autoescape"], case["template"], d)
+        r = render(case["autoescape"], case["template"], d, reg=case.get("registration", "plain"))
     print("template:", case["template"], "data:", d, "autoescape:", case["autoescape"])
     print("rendered:", r)
     bad = False
